@@ -363,12 +363,18 @@ def cases(tier, seed):
             for scheme in schemes(vendor):
                 yield vendor, scheme, shape, scheme in ("A0", "B")
     if b["full3"]:
-        # every shape of depth <= 3 with <= 3 rows per level (the ones above the node cap), one labelling
+        # every shape of depth <= 3 with <= 3 rows per level above the node cap: all labellings up to the quick tier's cap
+        # (so that thorough covers quick), one labelling beyond
+        q = _bounds("quick")["nodes"]
         for shape, size in forests(3, 39, 3):
             if size <= b["nodes"]:
                 continue
             for vendor in VENDORS:
-                yield vendor, "A0", shape, False
+                if size <= q:
+                    for scheme in schemes(vendor):
+                        yield vendor, scheme, shape, scheme in ("A0", "B")
+                else:
+                    yield vendor, "A0", shape, False
     rnd = random.Random(seed * 7919 + 4)
     for n in range(b["nrandom"]):
         shape = random_shape(rnd, rnd.randint(2, 6), rnd.randint(2, 5), [rnd.randint(4, 40)])
